@@ -129,6 +129,21 @@ def mapper_src(m):
 
 def class_src(c, suffix="", fast=False):
     bases = "Structure" + (", FastSerializable" if fast else "")
+    k = c.get("split")
+    if k:
+        # the same declaration written as a base class holding the first k fields and a subclass holding the
+        # rest (and the class attributes): typedpy sees the same fields, required list and mapper
+        base = {"name": c["name"] + "Base", "fields": c["fields"][:k]}
+        names = [fd["name"] for fd in base["fields"]]
+        if c.get("required") is not None:
+            base["required"] = [r for r in c["required"] if r in names]
+        derived = dict(c)
+        derived["split"] = None
+        derived["fields"] = c["fields"][k:]
+        if c.get("required") is not None:
+            derived["required"] = [r for r in c["required"] if r not in names]
+        return class_src(base, suffix, fast) + "\n" + class_src(derived, suffix, fast).replace(
+            "(%s):" % bases, "(%sBase%s):" % (c["name"], suffix), 1)
     lines = ["class %s%s(%s):" % (c["name"], suffix, bases)]
     for fd in c["fields"]:
         src = tf_src(fd["ty"], suffix)
@@ -213,6 +228,8 @@ def emit_mapper(m):
 def emit_class(c):
     names = [fd["name"] for fd in c["fields"]]
     req = names if c.get("required") is None else [r for r in c["required"]]
+    # typedpy keeps a field that has a default out of the class's _required list
+    req = [r for r in req if not any(fd["name"] == r and fd.get("default") is not None for fd in c["fields"])]
     fds = ["{| f_name := %s; f_ty := %s; f_default := %s |}" % (
         E.pstr(fd["name"]), emit_tf(fd["ty"]), E.opt(fd.get("default"), E.pval)) for fd in c["fields"]]
     return ("{| t_name := %s; t_fields := %s; t_required := %s; t_additional := %s; t_ignore_none := %s; "
@@ -431,6 +448,10 @@ def class_doc(rnd, c, envd, inh, ku_extras):
             continue
         key = reg_key(inh, c, k)
         r = rnd.random()
+        m = c.get("mapper")
+        if isinstance(m, dict) and any(kk == k and mv[0] == "fun" for kk, mv in m["dict"]):
+            r = 1.0       # a FunctionCall-mapped field has no fall-back to its own name (function mappers are
+            #               outside the model; only the key the mappers produce is used for such a field)
         if "." in key:
             # dotted path of the mapper: nest the value
             parts = key.split(".")
